@@ -804,6 +804,32 @@ M('C11', 'plus_identity: chain condition flipped (equivalent)', MPO,
   "g = 1 if counter != 0 else beta", "g = beta if counter == 0 else 1", None, expect='silent')
 
 # ---------------------------------------------------------------- C16 / C19
+M('C16', 'GMRES restart: relative residual norm used for normalisation (round-3 seed b)', KRY,
+  """        self.total_error.append([npc.norm(self.rs[-1]) / self.b_norm])
+        self.r_norm = npc.norm(self.rs[-1])
+""", """        self.r_norm = npc.norm(self.rs[-1]) / self.b_norm
+        self.total_error.append([self.r_norm])
+""", 'KRYLOV-restart')
+M('C16', 'GMRES restart: e1 not rescaled', KRY,
+  """        self.e1[0] = 1
+        self.e1.iscale_prefactor(self.r_norm)
+
+        self.H = npc.Array.from_ndarray_trivial(np.zeros((self.N_max + 1, self.N_max)) * 1.0j)
+
+
+class Arnoldi""", """        self.e1[0] = 1
+
+        self.H = npc.Array.from_ndarray_trivial(np.zeros((self.N_max + 1, self.N_max)) * 1.0j)
+
+
+class Arnoldi""", 'KRYLOV-restart')
+M('C16', 'GMRES restart: norm computed once into a local (equivalent)', KRY,
+  """        self.total_error.append([npc.norm(self.rs[-1]) / self.b_norm])
+        self.r_norm = npc.norm(self.rs[-1])
+""", """        r_norm = npc.norm(self.rs[-1])
+        self.total_error.append([r_norm / self.b_norm])
+        self.r_norm = r_norm
+""", None, expect='silent')
 M('C16', 'gram_schmidt keeps vectors below rcond', KRY,
   "        if n > rcond:\n            iscale_prefactor(vec, 1.0 / n)\n            res.append(vec)",
   "        iscale_prefactor(vec, 1.0 / n)\n        res.append(vec)", 'KRYLOV-gram-schmidt')
